@@ -199,3 +199,130 @@ Theorem C10_enum_unary :
                        else RVal (CVariant (v_name vr), map (uop (std_method t)) a))).
 Proof. exact Proofs.enum_unary. Qed.
 Print Assumptions C10_enum_unary.
+
+Theorem C10_struct_binary_pointwise :
+  forall lower : str -> str, lower_ok lower ->
+  forall (V : Type) (op : str -> V -> V -> V) (uop : str -> V -> V) (ident : str -> N -> V)
+         (t : trait) (attrs : list attr) (fs : fields) (a b : list V),
+    fs <> FUnit -> NoDup (members_of fs) ->
+    (expander_of t = XAddLike \/
+     (expander_of t = XMulLike /\ forward_on t attrs /\ fields_clean (std_method t) fs)) ->
+    List.length a = List.length (members_of fs) -> List.length b = List.length (members_of fs) ->
+    exists (im : impl) (r : list V),
+      derive lower t (struct_input attrs fs) = Expanded im /\
+      run_body V op uop ident (ctx_of (struct_input attrs fs)) (im_body im) (CStruct, a) (Some (CStruct, b)) None
+      = Some (RVal (CStruct, r)) /\
+      List.length r = List.length a /\
+      forall (i : nat) (x y : V), nth_error a i = Some x -> nth_error b i = Some y ->
+                                  nth_error r i = Some (op (std_method t) x y).
+Proof. exact Proofs.struct_binary_pointwise. Qed.
+Print Assumptions C10_struct_binary_pointwise.
+
+Theorem C10_order_sensitive :
+  forall lower : str -> str, lower_ok lower ->
+  forall (t : trait) (attrs : list attr) (fs : fields) (a b : list term),
+    fs <> FUnit -> NoDup (members_of fs) ->
+    (expander_of t = XAddLike \/
+     (expander_of t = XMulLike /\ forward_on t attrs /\ fields_clean (std_method t) fs)) ->
+    List.length a = List.length (members_of fs) -> List.length b = List.length (members_of fs) ->
+    (exists (i : nat) (x y : term), nth_error a i = Some x /\ nth_error b i = Some y /\ x <> y) ->
+    exists (im : impl) (r r' : list term),
+      derive lower t (struct_input attrs fs) = Expanded im /\
+      run_body term App2 App1 Ident (ctx_of (struct_input attrs fs)) (im_body im) (CStruct, a) (Some (CStruct, b)) None
+      = Some (RVal (CStruct, r)) /\
+      run_body term App2 App1 Ident (ctx_of (struct_input attrs fs)) (im_body im) (CStruct, b) (Some (CStruct, a)) None
+      = Some (RVal (CStruct, r')) /\
+      r <> r'.
+Proof. exact Proofs.order_sensitive. Qed.
+Print Assumptions C10_order_sensitive.
+
+Theorem C10_enum_total :
+  forall lower : str -> str, lower_ok lower ->
+  forall (V : Type) (op : str -> V -> V -> V) (uop : str -> V -> V) (ident : str -> N -> V)
+         (t : trait) (attrs : list attr) (vs : list variant),
+    (expander_of t = XAddLike \/
+     (expander_of t = XMulLike /\ forward_on t attrs /\ variants_clean (std_method t) vs)) ->
+    wf_variants vs ->
+    exists im : impl,
+      derive lower t (enum_input attrs vs) = Expanded im /\
+      forall x y : val V, enum_value V vs x -> enum_value V vs y ->
+        run_body V op uop ident (ctx_of (enum_input attrs vs)) (im_body im) x (Some y) None
+        = enum_binary_spec V op (std_method t) vs x y /\
+        enum_binary_spec V op (std_method t) vs x y <> None.
+Proof. exact Proofs.enum_total. Qed.
+Print Assumptions C10_enum_total.
+
+Theorem C10_sum_small :
+  forall lower : str -> str, lower_ok lower ->
+  forall (V : Type) (op : str -> V -> V -> V) (uop : str -> V -> V) (ident : str -> N -> V)
+         (self_op : str -> list V -> list V -> list V)
+         (t : trait) (attrs : list attr) (fs : fields),
+    expander_of t = XSumLike -> no_attr (std_method t) attrs -> fields_clean (std_method t) fs ->
+    NoDup (members_of fs) ->
+    exists im : impl,
+      derive lower t (struct_input attrs fs) = Expanded im /\
+      let zero := map (fun f : field => ident (std_method t) (f_ty f)) (field_list fs) in
+      run_fold V op uop ident self_op (ctx_of (struct_input attrs fs)) (im_body im) [] = Some (CStruct, zero) /\
+      forall x : list V,
+        run_fold V op uop ident self_op (ctx_of (struct_input attrs fs)) (im_body im) [(CStruct, x)]
+        = Some (CStruct, self_op (std_method (fold_op t)) zero x).
+Proof. exact Proofs.struct_sum_small. Qed.
+Print Assumptions C10_sum_small.
+
+Theorem C10_expanded_only_if_supported :
+  forall (lower : str -> str) (t : trait) (inp : input) (im : impl),
+    derive lower t inp = Expanded im -> supported_shape t inp im.
+Proof. exact Proofs.expanded_only_if_supported. Qed.
+Print Assumptions C10_expanded_only_if_supported.
+
+Theorem C10_scalar_header :
+  forall lower : str -> str, lower_ok lower ->
+  forall (t : trait) (attrs : list attr) (fs : fields) (g : generics),
+    (expander_of t = XMulLike \/ expander_of t = XMulAssignLike) ->
+    forward_off t attrs -> fields_clean (std_method t) fs ->
+    exists (h : header) (new : list wpred),
+      derive_header lower t g (struct_input attrs fs) = Expanded h /\
+      h_params h = filter is_lifetime (map orig_param (g_params g))
+                   ++ filter is_type_param (map orig_param (g_params g))
+                   ++ [ORhs (Nat.ltb 1 (List.length (field_list fs)))]
+                   ++ filter is_const_param (map orig_param (g_params g)) /\
+      h_where h = new ++ map WOrig (g_where g) /\
+      NoDup new /\
+      (forall f : field, In f (field_list fs) -> In (scalar_pred t (f_ty f)) new) /\
+      (forall w : wpred, In w new -> exists f : field, In f (field_list fs) /\ w = scalar_pred t (f_ty f)).
+Proof. exact Proofs.scalar_header. Qed.
+Print Assumptions C10_scalar_header.
+
+Theorem C10_fieldwise_header :
+  forall (lower : str -> str) (t : trait) (g : generics) (inp : input) (im : impl),
+    derive lower t inp = Expanded im ->
+    (expander_of t = XAddLike \/ expander_of t = XNotLike \/ (expander_of t = XMulLike /\ im_scalar im = None)) ->
+    derive_header lower t g inp
+    = Expanded {| h_params := map (fun p => push_bound (fun n => BOpOutput (im_trait im) n) (orig_param p)) (g_params g);
+                  h_where := map WOrig (g_where g) |}.
+Proof. exact Proofs.fieldwise_header. Qed.
+Print Assumptions C10_fieldwise_header.
+
+Theorem C10_assign_header :
+  forall (lower : str -> str) (t : trait) (g : generics) (inp : input) (im : impl),
+    derive lower t inp = Expanded im ->
+    (expander_of t = XAddAssignLike \/ (expander_of t = XMulAssignLike /\ im_scalar im = None)) ->
+    derive_header lower t g inp
+    = Expanded {| h_params := map (fun p => push_bound (fun _ => BOp (im_trait im)) (orig_param p)) (g_params g);
+                  h_where := map WOrig (g_where g) |}.
+Proof. exact Proofs.assign_header. Qed.
+Print Assumptions C10_assign_header.
+
+Theorem C10_sum_header :
+  forall lower : str -> str, lower_ok lower ->
+  forall (t : trait) (attrs : list attr) (fs : fields) (g : generics),
+    expander_of t = XSumLike -> no_attr (std_method t) attrs -> fields_clean (std_method t) fs ->
+    exists h : header,
+      derive_header lower t g (struct_input attrs fs) = Expanded h /\
+      (has_type_param g = false ->
+         h = {| h_params := map orig_param (g_params g); h_where := map WOrig (g_where g) |}) /\
+      (has_type_param g = true ->
+         h = {| h_params := map (fun p => push_bound (fun _ => BWith (trait_name t)) (orig_param p)) (g_params g);
+                h_where := WSelfOp (trait_name (fold_op t)) :: map WOrig (g_where g) |}).
+Proof. exact Proofs.sum_header. Qed.
+Print Assumptions C10_sum_header.
